@@ -235,8 +235,7 @@ theorem findStart_spec (img : List Nat) (x dx s : Nat) (hs : s + 3 < img.length)
 theorem dans_eq : Spec.dans = DANS := by decide
 theorem rich_eq : Spec.rich = RICH := by decide
 
-/-- the DOS area `try_from` looks at: the dwords before `e_lfanew` -/
-def areaOf (image : List Nat) : List Nat := image.take (image.getD 15 0 / 4)
+-- `areaOf`, `HeaderAt`, `NoFake` are defined in Spec/Rich.lean
 
 theorem idx_of_getElem? {site : String} {ws : List Nat} {i v : Nat} (h : ws[i]? = some v) :
     idx site ws i = .ok v := by
@@ -246,13 +245,21 @@ theorem slice_ok (site : String) (ws : List Nat) (a b : Nat) (h : a ≤ b ∧ b 
     slice site ws a b = .ok ((ws.take b).drop a) := by
   unfold slice; rw [if_pos h]
 
-/-- no block that reads `DanS^k, k, k, k` strictly between the header and the trailer, at even distance -/
-def NoFake (area : List Nat) (s e k : Nat) : Prop :=
-  ∀ t, s < t → t + 6 ≤ e → (e - t) % 2 = 0 → ¬ Hdr area k (DANS ^^^ k) t
+theorem headerAt_iff (area : List Nat) (k t : Nat) : HeaderAt area k t ↔ Hdr area k (DANS ^^^ k) t := by
+  unfold HeaderAt Hdr; rw [dans_eq]
+
+/-- `Spec.NoFake` in the vocabulary of the scan lemmas -/
+theorem noFake_iff (area : List Nat) (s e k : Nat) :
+    NoFake area s e k ↔ ∀ t, s < t → t + 6 ≤ e → (e - t) % 2 = 0 → ¬ Hdr area k (DANS ^^^ k) t := by
+  unfold NoFake
+  constructor
+  · intro h t a b c; rw [← headerAt_iff]; exact h t a b c
+  · intro h t a b c; rw [headerAt_iff]; exact h t a b c
 
 theorem parseArea_complete (area : List Nat) (s e k : Nat)
     (hwf : WellFormedAt area s e k) (hk : k ≠ 0) (hno : NoFake area s e k) :
     parseArea area = .ok ⟨area.take s, (area.take e).drop s⟩ := by
+  rw [noFake_iff] at hno
   obtain ⟨w1, w2, w3, w4, w5, w6, w7, w8, w9, w10, w11⟩ := hwf
   rw [dans_eq] at w5; rw [rich_eq] at w9
   unfold parseArea
@@ -315,7 +322,7 @@ theorem parseArea_spec (area : List Nat) :
           rw [hr] at hm
           refine ⟨g2, by omega, h3, by omega, by rw [dans_eq]; exact a, b, c, d, by rw [rich_eq]; exact hm, h4, ?_⟩
           intro j hj1 hj2; exact h5 j hj2 hj1
-        · intro t ht1 ht2 ht3; exact g6 t ht1 (by omega) (by omega)
+        · rw [noFake_iff]; intro t ht1 ht2 ht3; exact g6 t ht1 (by omega) (by omega)
       · right; left; rw [g1]; rfl
     · right; right; rw [if_pos (by simp [hr])]
   · right; left; rw [h1]; rfl
@@ -471,6 +478,7 @@ theorem record_eq_of_value (r : Record) (hwf : r.WF) (p b : Nat) (hb : b < 65536
 theorem layout_noFake (stub : List Nat) (k : Nat) (rs : List Record) (p : Nat)
     (hwf : ∀ r ∈ rs, r.WF) (him : imitates rs = false) :
     NoFake (layoutWords stub k rs p) stub.length (stub.length + (2 * rs.length + 6)) k := by
+  rw [noFake_iff]
   intro t ht1 ht2 ht3 ⟨g0, g1, g2, g3⟩
   by_cases h2 : t = stub.length + 2
   · -- the block would start at the second key dword
